@@ -104,14 +104,18 @@ func (c *c03) RunCase(seed uint64, idx int) []Case {
 func (c *c03) Replay(cs *Case) *Case { return c.check(cs, false) }
 
 type altEnv struct {
-	Env        Env              `json:"env"`
-	History    []Project        `json:"history,omitempty"`
-	Companions []Project        `json:"companions,omitempty"`
-	Fresh      bool             `json:"fresh,omitempty"`
-	YieldSeed  uint64           `json:"yield_seed,omitempty"`
-	ColdPm     int              `json:"cold_permille,omitempty"`
-	StayPm     int              `json:"stay_permille,omitempty"`
-	Decisions  []simrt.Decision `json:"decisions,omitempty"`
+	Env        Env       `json:"env"`
+	History    []Project `json:"history,omitempty"`
+	Companions []Project `json:"companions,omitempty"`
+	Fresh      bool      `json:"fresh,omitempty"`
+	// HistoryFirst: this environment (history, then the project) is executed before anything else of
+	// the case touched the project's file names, and is compared with the result of a fresh process:
+	// state kept per file name or per text by the first execution cannot be seen any other way.
+	HistoryFirst bool             `json:"history_first,omitempty"`
+	YieldSeed    uint64           `json:"yield_seed,omitempty"`
+	ColdPm       int              `json:"cold_permille,omitempty"`
+	StayPm       int              `json:"stay_permille,omitempty"`
+	Decisions    []simrt.Decision `json:"decisions,omitempty"`
 }
 
 // lastTwin is the valid twin of the project genProject returned last (nil if none).
@@ -131,7 +135,9 @@ func (c *c03) genProject(r *rng) (Project, bool) {
 	multi := false
 	if r.chance(700) {
 		multi = true
-		switch r.n(9) {
+		switch r.n(10) {
+		case 9:
+			cfg.PathTypeRefs = 2 + r.n(4)
 		case 8:
 			cfg.EnumMismatch = 1
 		case 5:
@@ -178,8 +184,16 @@ func (c *c03) DumpCase(seed uint64, idx int) []Case {
 	cs := Case{Prop: "C03", Kind: "env", Seed: seed, Index: idx, Env: refEnv}
 	cs.Opts = optionSets[r.n(4)]
 	p, multi := c.genProject(r)
+	// Names are unique per case: state that a changed tree may keep per file name must come from
+	// this case's own history, not from whatever case this worker process ran before.
+	caseDir := fmt.Sprintf("/sim/k%d", idx)
+	p = rebase(&p, caseDir)
 	cs.Project = p
 	twin := lastTwin
+	if twin != nil {
+		t := rebase(twin, caseDir)
+		twin = &t
+	}
 	var envs []altEnv
 	for e := 0; e < c.nEnvs; e++ {
 		a := altEnv{}
@@ -197,6 +211,9 @@ func (c *c03) DumpCase(seed uint64, idx int) []Case {
 		if e == 2 || (e > 2 && r.chance(250)) {
 			for k := 1 + r.n(3); k > 0; k-- {
 				hp, _ := c.genProject(r)
+				if r.chance(500) {
+					hp = rebase(&hp, caseDir) // an unrelated project under the same names
+				}
 				a.History = append(a.History, hp)
 			}
 			if r.chance(500) {
@@ -222,6 +239,14 @@ func (c *c03) DumpCase(seed uint64, idx int) []Case {
 			a = altEnv{Env: refEnv, Fresh: true}
 		}
 		envs = append(envs, a)
+	}
+	if idx%6 == 5 {
+		hf := altEnv{Env: refEnv, HistoryFirst: true}
+		hf.History = append(hf.History, editedCopy(&p, r))
+		if twin != nil {
+			hf.History = append(hf.History, *twin)
+		}
+		envs = append([]altEnv{hf}, envs...)
 	}
 	cs.Extra = map[string]any{"envs": envs, "multi_fault": multi}
 	return []Case{cs}
@@ -426,6 +451,29 @@ func consumedNonDefault(dec []simrt.Decision) bool {
 func (c *c03) check(cs *Case, record bool) *Case {
 	p := &cs.Project
 	envs := unpackEnvs(cs)
+	for ei := range envs {
+		a := &envs[ei]
+		if !a.HistoryFirst {
+			continue
+		}
+		got, dec := c.runAlt(cs, a, nil)
+		cold := freshProcessResult(cs)
+		c.st.Compared++
+		if record {
+			c.st.EnvHistory++
+			c.st.EnvFresh++
+		}
+		if got.Panic != "" || cold.Panic != "" {
+			continue
+		}
+		if same, what := cold.Same(&got); !same {
+			detail := fmt.Sprintf("field %s: the project processed after %d other project(s) with the same file names differs from the project processed alone in a fresh process\n fresh : accepted=%v msg=%q index=%d line=%d quote=%q\n after : accepted=%v msg=%q index=%d line=%d quote=%q",
+				what, len(a.History), cold.Accepted, cold.Msg, cold.Index, cold.Line, cold.Quote, got.Accepted, got.Msg, got.Index, got.Line, got.Quote)
+			v := violation(cs, "nondeterminism", diffShape(what)+"@history-first", detail)
+			pack(v, a, dec)
+			return v
+		}
+	}
 	c.st.Exec++
 	ref, _, _ := execute(p, cs.Opts, refEnv, nil, cs.Seed, nil)
 	if record {
@@ -443,6 +491,9 @@ func (c *c03) check(cs *Case, record bool) *Case {
 	}
 	for ei := range envs {
 		a := &envs[ei]
+		if a.HistoryFirst {
+			continue
+		}
 		var forced []simrt.Decision
 		if !record && a.Decisions != nil {
 			forced = a.Decisions
@@ -610,10 +661,18 @@ func diffShape(what string) string {
 func editedCopy(p *Project, r *rng) Project {
 	q := p.clone()
 	files := sortedKeys(q.Files)
-	if r.chance(300) && len(files) > 0 {
-		// the other line-break convention in one file (CR only), everything else the same
-		path := files[r.n(len(files))]
-		q.set(path, []byte(strings.ReplaceAll(string(q.content(path)), "\n", "\r")))
+	if r.chance(400) && len(files) > 0 {
+		// the same project under another line-break convention (CR only, or CRLF), in one file or in all
+		nl := []string{"\r", "\r\n"}[r.n(2)]
+		one := ""
+		if r.chance(400) {
+			one = files[r.n(len(files))]
+		}
+		for _, path := range files {
+			if one == "" || path == one {
+				q.set(path, []byte(strings.ReplaceAll(string(q.content(path)), "\n", nl)))
+			}
+		}
 		return q
 	}
 	for k := 0; k < 3 && len(files) > 0; k++ {
